@@ -1,18 +1,13 @@
 RC.append(("np.linalg.solve with a batched matrix and a vector right-hand side that broadcasts: wrong first-order gradient (see C01) hence a non-symmetric, wrong second derivative",
            [("C07", "solve", "RR", "hessian-not-symmetric", "batch_broadcast:True,rhs_vector:True"), ("C07", "solve", "RR", "wrong-value", "batch_broadcast:True,rhs_vector:True")]))
 RC.append(("np.diag of a non-square 2-D array (namespace scan; same root cause as the C01 entry)", [("C15", "diag", "rev", "wrong-shape", "shape_rank:2")]))
-RC.append(("forward-mode np.linspace with an array-valued start or stop: the JVP rebuilds linspace(g, 0) and loses the other operand's shape",
-           [("C15", "linspace", "fwd", "wrong-shape", "shape_rank:0")]))
-RC.append(("np.linspace with array-valued start/stop (NumPy broadcasts them): the reverse rule contracts the wrong axis and returns silently wrong or misshapen gradients",
-           [("C15", "linspace", "rev", "silently-wrong", "shape_rank:~[12]"), ("C15", "linspace", "rev", "wrong-shape", "shape_rank:~[012]"),
-            ("C15", "linspace", "fwd", "silently-wrong", "shape_rank:~[12]"), ("C15", "linspace", "fwd", "wrong-shape", "shape_rank:~[12]")]))
 RC.append(("forward-mode np.diff with prepend/append: the 'same' rule applies diff to the tangent *with the primal prepend/append values* instead of zeros",
            [("C15", "diff", "fwd", "silently-wrong", "template_len:4")]))
 # ----- C09: complex-valued operands (triaged classes)
 _MIX = "arg_cplx:real,ops_cplx:~.*c.*"
 RC.append(("gradient w.r.t. a REAL operand that is combined with complex operands comes back complex (no match_complex in the rule), so it does not live in the argument's space",
            [("C09", p, "rev", "wrong-shape", _MIX) for p in ("append", "array", "column_stack", "concatenate", "dstack", "hstack", "vstack", "row_stack", "r_", "c_", "select",
-                                                             "einsum", "inner", "linspace", "cross", "solve", "stack", "outer", "kron")]))
+                                                             "einsum", "inner", "solve", "stack", "kron")]))
 RC.append(("forward mode of a binary/selection function with one real and one complex operand: the tangent keeps the real operand's kind instead of the complex output's",
            [("C09", p, "fwd", "wrong-shape", "ops_cplx:~(cr|rc|rcr|crc)") for p in ("maximum", "minimum", "fmax", "fmin", "where", "select", "linspace")]))
 RC.append(("np.array([x, y], ndmin=3) (see C01 entry) with complex members", [("C09", "array", "fwd", "wrong-value", "ndmin:True,list_input:True"),
